@@ -154,7 +154,9 @@ Example C01_example_gen :
     = Ok {| members := [4; 1]; gen := MODEL_GEN |} /\
   wf_term ex_world TLegacyAgents /\
   wf_cterm (CSelect (CNbhd 0 true) true (Some 1)) /\
-  ceval ex_world (CSelect (CNbhd 0 true) true (Some 1)) = Ok {| members := [1]; gen := MODEL_GEN |}.
+  ceval ex_world (CSelect (CNbhd 0 true) true (Some 1)) = Ok {| members := [1]; gen := MODEL_GEN |} /\
+  (* the unseeded fall-back evaluates, and is seen *)
+  eval ex_world (TSort (TNew TAgents false) false) = Ok {| members := [1; 4; 2]; gen := OTHER_GEN |}.
 Proof. vm_compute. repeat split; congruence. Qed.
 
 Example C01_example_history :
